@@ -450,3 +450,36 @@ Definition simplify_is_map (T : tbl) (fresh : list val) (target : val) (before a
                && block_fields_nodup (p_body before)
   | None => false
   end.
+
+(* ---- the lowering form of C01's quantifier, as a decidable predicate ------------------------------
+   [full_field_form p]: every launch is immediately preceded, in its block, by a setup of the same
+   accelerator that writes EVERY field any setup of that accelerator writes anywhere in p
+   ("full-field setups + launch/await pairs, the form every accelerator lowering emits").
+   Its negation is the class of known finding F23 (PullSetupOpsOutOfLoops hoists a field in front of a
+   loop that may run zero times; a later launch that does not rewrite the field observes it). *)
+Definition prog_fields (a : acc) (b : block) : list field := sort_dedup (flat_map (map fst) (block_setups a b)).
+
+Fixpoint ff_stmt (all : block) (prev : option stmt) (s : stmt) {struct s} : bool :=
+  let blk := fix blk (prev : option stmt) (b : list stmt) {struct b} : bool :=
+    match b with
+    | [] => true
+    | x :: b' => ff_stmt all prev x && blk (Some x) b'
+    end in
+  match s with
+  | SLaunch a _ _ _ =>
+      match prev with
+      | Some (SSetup a' _ _ fs) => Nat.eqb a' a && forallb (fun f => mem_nat f (map fst fs)) (prog_fields a all)
+      | _ => false
+      end
+  | SFor _ _ _ _ _ _ body _ => blk None body
+  | SIf _ _ th _ el _ => blk None th && blk None el
+  | _ => true
+  end.
+
+Fixpoint ff_block (all : block) (prev : option stmt) (b : block) : bool :=
+  match b with
+  | [] => true
+  | x :: b' => ff_stmt all prev x && ff_block all (Some x) b'
+  end.
+
+Definition full_field_form (p : prog) : bool := ff_block (p_body p) None (p_body p).
